@@ -153,7 +153,9 @@ PROPS['C12'] = {
     'packages': ALLPK,
     'functions': ['acr.computeParsimony', 'asr.computeParsimony',
                   ('acr.parsimonyUPPASS', {'match': [r'^step', r'^callsite', r'^post']}),
-                  ('asr.parsimonyUPPASS', {'match': [r'^step', r'^callsite']})],
+                  ('asr.parsimonyUPPASS', {'match': [r'^step', r'^callsite']}),
+                  ('acr.parsimonyDOWNPASS', {'match': [r'^callsite']}), ('asr.parsimonyDOWNPASS', {'match': [r'^callsite']}),
+                  ('acr.parsimonyDELTRAN', {'match': [r'^inv', r'^bounds', r'^nil']})],
     'trusted_base': TB_COMMON + ['A-HARTIGAN: the Fitch/Hartigan recurrence yields the minimum number of changes (Hartigan 1973)'],
     'assumptions': A_COMMON,
     'not_decided': ['optimality itself; the three clauses about per-node state sets of the second pass; rooting independence (corollary of optimality)', 'site-by-site agreement acr/asr (both are proved against the same recurrence)'],
